@@ -1823,3 +1823,272 @@ def pickle_roundtrip_model(P, R):
                 'references denote the dumped functions by variable name '
                 '(fresh manager, other variable order, same manager)')
     return n
+
+
+class _OrderModel:
+    """A manager reduced to its variable order, for the functions that
+    only drive `swap`: the size of the diagram is a fixed function of the
+    order (10 + the number of inversions against a hidden best order), a
+    swap exchanges two adjacent levels and complains about anything
+    else."""
+
+    def __init__(self, order, best):
+        self.vars = {v: k for k, v in enumerate(order)}
+        self.best = {v: k for k, v in enumerate(best)}
+        self.complaints = []
+        self.swaps = 0
+        self.roots = set()
+
+    def order(self):
+        return sorted(self.vars, key=self.vars.get)
+
+    def size(self):
+        o = self.order()
+        inv = sum(1 for i in range(len(o)) for j in range(i + 1, len(o))
+                  if self.best[o[i]] > self.best[o[j]])
+        return 10 + inv
+
+    def stubs(self):
+        mdl = self
+
+        def swap(m, call, args, kw):
+            vals = dict(zip(('x', 'y', 'all_levels'), args))
+            vals.update(kw)
+            x, y = vals.get('x'), vals.get('y')
+            if x in mdl.vars:
+                x = mdl.vars[x]
+            if y in mdl.vars:
+                y = mdl.vars[y]
+            n = len(mdl.vars)
+            ok = all(isinstance(z, int) and not isinstance(z, bool)
+                     and 0 <= z < n for z in (x, y))
+            if not ok or abs(x - y) != 1:
+                mdl.complaints.append(
+                    f'swap({vals.get("x")!r}, {vals.get("y")!r}) with '
+                    f'{n} variables: not two adjacent levels')
+                raise interp.Raised('ValueError')
+            old = mdl.size()
+            by = {k: v for v, k in mdl.vars.items()}
+            mdl.vars[by[x]], mdl.vars[by[y]] = y, x
+            mdl.swaps += 1
+            return (old, mdl.size())
+
+        def var_at_level(m, call, args, kw):
+            by = {k: v for v, k in mdl.vars.items()}
+            if not args or args[0] not in by:
+                raise interp.Raised('ValueError')
+            return by[args[0]]
+
+        def level_of_var(m, call, args, kw):
+            if not args or args[0] not in mdl.vars:
+                raise interp.Raised('ValueError')
+            return mdl.vars[args[0]]
+        return {
+            'swap': swap, 'var_at_level': var_at_level,
+            'level_of_var': level_of_var,
+            '_levels': lambda m, c, a, k: interp.Sym('levels'),
+            'collect_garbage': lambda m, c, a, k: None,
+            'assert_consistent': lambda m, c, a, k: True,
+            'getEffectiveLevel': lambda m, c, a, k: 100,
+            '__len__': lambda m, c, a, k: mdl.size(),
+            '__contains__': lambda m, c, a, k: True,
+        }
+
+    def handle(self):
+        mdl = self
+
+        class Attrs:
+            def __contains__(self, name):
+                return name in ('vars', 'roots', 'var_levels')
+
+            def __getitem__(self, name):
+                if name == 'var_levels':
+                    # a property: a new dictionary at every read
+                    return dict(mdl.vars)
+                return {'vars': mdl.vars, 'roots': mdl.roots}[name]
+        return interp.Sym('bdd', Attrs())
+
+
+def reorder_model(P, R):
+    """The functions of dd.bdd that reorder by driving `swap`
+    (`_sort_to_order`, `reorder_to_pairs`, `_shift`, `_reorder_var`,
+    `_apply_sifting`), interpreted on a manager reduced to its variable
+    order with a specification of `swap` (exchange of two adjacent
+    levels, sizes before and after from a fixed function of the order).
+    C07: afterwards the requested order holds (every start and target
+    permutation of four variables); every requested pair is adjacent;
+    only adjacent levels are ever swapped; sifting a variable leaves it
+    at a position of least size and never ends larger than it began."""
+    import itertools
+    names = ['a', 'b', 'c', 'd']
+    perms = list(itertools.permutations(names))
+    resolver = interp.ModuleEnv(P, 'dd.bdd')
+    env0 = {'logging.DEBUG': 10}
+    problems = dict()
+    counts = dict()
+
+    def run(qual, mdl, args):
+        f = P.func(qual)
+        stubs = mdl.stubs()
+        # the functions of this family call each other
+        for other in ('_shift', '_reorder_var', '_sort_to_order',
+                      '_apply_sifting'):
+            g = P.func(f'dd.bdd.{other}', required=False)
+            if g is not None and other != f.name:
+                def sub(m, call, a, k, g=g):
+                    ps = g.params
+                    e = dict(env0)
+                    e.update(zip(ps, a))
+                    e.update(k)
+                    out, _ = interp.run_function(g.node, e, stubs,
+                                                 resolver)
+                    if out[0] == 'raise':
+                        raise interp.Raised(out[1])
+                    return out[1]
+                stubs[other] = sub
+        env = dict(env0)
+        env.update(zip(f.params, args))
+        counts[qual] = counts.get(qual, 0) + 1
+        return f, interp.run_function(f.node, env, stubs, resolver)
+    try:
+        # ---- _sort_to_order: every start x every target
+        q = 'dd.bdd._sort_to_order'
+        for start in perms:
+            for target in perms:
+                mdl = _OrderModel(start, target)
+                order = {v: k for k, v in enumerate(target)}
+                f, (out, m) = run(q, mdl, [mdl.handle(), dict(order)])
+                what = f'order {list(start)} sorted to {list(target)}'
+                if mdl.complaints:
+                    problems.setdefault((q, 'non-adjacent-swap'),
+                                        f'{what}: {mdl.complaints[0]}')
+                elif out[0] == 'raise':
+                    problems.setdefault((q, 'raises'),
+                                        f'{what}: raises {out[1]}')
+                elif mdl.vars != order:
+                    problems.setdefault((q, 'order-not-reached'), (
+                        f'{what}: ends with {mdl.order()}'))
+        # ---- reorder_to_pairs: disjoint pairs
+        q = 'dd.bdd.reorder_to_pairs'
+        pairings = [{'a': 'b'}, {'a': 'c'}, {'d': 'a'}, {'b': 'd'},
+                    {'a': 'b', 'c': 'd'}, {'a': 'c', 'b': 'd'},
+                    {'d': 'a', 'c': 'b'}]
+        for start in perms:
+            for pairs in pairings:
+                mdl = _OrderModel(start, names)
+                f, (out, m) = run(q, mdl, [mdl.handle(), dict(pairs)])
+                what = f'order {list(start)}, pairs {pairs}'
+                if mdl.complaints:
+                    problems.setdefault((q, 'non-adjacent-swap'),
+                                        f'{what}: {mdl.complaints[0]}')
+                elif out[0] == 'raise':
+                    problems.setdefault((q, 'raises'),
+                                        f'{what}: raises {out[1]}')
+                else:
+                    apart = [(x, y) for x, y in pairs.items()
+                             if abs(mdl.vars[x] - mdl.vars[y]) != 1]
+                    if apart:
+                        problems.setdefault((q, 'pair-not-adjacent'), (
+                            f'{what}: ends with {mdl.order()}, where '
+                            f'{apart} are not adjacent'))
+        # ---- _shift: level start becomes level end, others keep order
+        q = 'dd.bdd._shift'
+        for s in range(4):
+            for e in range(4):
+                mdl = _OrderModel(names, ['c', 'a', 'd', 'b'])
+                f, (out, m) = run(q, mdl, [mdl.handle(), s, e,
+                                           interp.Sym('levels')])
+                want = [v for v in names if v != names[s]]
+                want.insert(e, names[s])
+                what = f'order {names}, _shift(start={s}, end={e})'
+                if mdl.complaints:
+                    problems.setdefault((q, 'non-adjacent-swap'),
+                                        f'{what}: {mdl.complaints[0]}')
+                elif out[0] == 'raise':
+                    problems.setdefault((q, 'raises'),
+                                        f'{what}: raises {out[1]}')
+                elif mdl.order() != want:
+                    problems.setdefault((q, 'order-not-reached'), (
+                        f'{what}: ends with {mdl.order()}, expected '
+                        f'{want}'))
+                elif isinstance(out[1], dict) and s != e:
+                    # the sizes reported per position
+                    sizes = out[1]
+                    if sizes.get(e) != mdl.size():
+                        problems.setdefault((q, 'sizes'), (
+                            f'{what}: reports size {sizes.get(e)} for '
+                            f'the final position; it is {mdl.size()}'))
+        # ---- _reorder_var: the variable ends at a position of least
+        # size, and the diagram is not larger than before
+        q = 'dd.bdd._reorder_var'
+        for start in perms:
+            for best in (('a', 'b', 'c', 'd'), ('c', 'a', 'd', 'b'),
+                         ('d', 'c', 'b', 'a')):
+                for var in names:
+                    mdl = _OrderModel(start, best)
+                    before = mdl.size()
+                    others = [v for v in start if v != var]
+                    least = None
+                    for k in range(4):
+                        o = list(others)
+                        o.insert(k, var)
+                        sz = _OrderModel(o, best).size()
+                        least = sz if least is None else min(least, sz)
+                    f, (out, m) = run(q, mdl, [mdl.handle(), var,
+                                               interp.Sym('levels')])
+                    what = (f'order {list(start)} (size {before}; best '
+                            f'order {list(best)}), sifting {var}')
+                    if mdl.complaints:
+                        problems.setdefault((q, 'non-adjacent-swap'),
+                                            f'{what}: {mdl.complaints[0]}')
+                    elif out[0] == 'raise':
+                        problems.setdefault((q, 'raises'),
+                                            f'{what}: raises {out[1]}')
+                    elif [v for v in mdl.order() if v != var] != others:
+                        problems.setdefault((q, 'others-moved'), (
+                            f'{what}: the other variables end as '
+                            f'{mdl.order()}'))
+                    elif mdl.size() != least:
+                        problems.setdefault((q, 'not-least'), (
+                            f'{what}: ends with size {mdl.size()} at '
+                            f'{mdl.order()}; position of least size '
+                            f'gives {least}'))
+                    elif out[1] != mdl.vars[var]:
+                        problems.setdefault((q, 'returns'), (
+                            f'{what}: returns {out[1]}, the variable is '
+                            f'at level {mdl.vars[var]}'))
+        # ---- _apply_sifting: never ends larger
+        q = 'dd.bdd._apply_sifting'
+        for start in perms[::3]:
+            for best in (('c', 'a', 'd', 'b'), ('d', 'c', 'b', 'a')):
+                mdl = _OrderModel(start, best)
+                before = mdl.size()
+                f, (out, m) = run(q, mdl, [mdl.handle()])
+                what = f'order {list(start)} (size {before}), sifting'
+                if mdl.complaints:
+                    problems.setdefault((q, 'non-adjacent-swap'),
+                                        f'{what}: {mdl.complaints[0]}')
+                elif out[0] == 'raise':
+                    problems.setdefault((q, 'raises'),
+                                        f'{what}: raises {out[1]}')
+                elif mdl.size() > before:
+                    problems.setdefault((q, 'larger'), (
+                        f'{what}: ends with size {mdl.size()}'))
+    except interp.Unknown as e:
+        R.undecided('R-INVMAP', 'dd.bdd (reordering drivers)',
+                    'reorder model', str(e))
+        return None
+    for (q, sub), msg in sorted(problems.items()):
+        f = P.func(q)
+        R.violation('R-REORDER', sub, q, sub, msg, unit=f.unit.rel,
+                    line=f.lineno)
+    total = sum(counts.values())
+    if not problems:
+        R.holds('R-REORDER', 'dd.bdd (reordering drivers)',
+                f'reorder model ({total} runs: '
+                + ', '.join(f'{k.rsplit(".", 1)[1]} {v}'
+                            for k, v in sorted(counts.items()))
+                + '): requested order reached, pairs adjacent, only '
+                'adjacent levels swapped, sifted variable at a position '
+                'of least size, never larger')
+    return total
